@@ -479,9 +479,17 @@ class Interp:
             names = [unparse(e) for e in h.type.elts]
         else:
             names = [unparse(h.type)]
+        import builtins
+        raised = getattr(builtins, typ.split(".")[-1], None)
         for n in names:
             n = n.split(".")[-1]
             if n in self.BROAD or n == typ.split(".")[-1]:
+                return True
+            # builtin exception hierarchy (FileNotFoundError is an OSError, IndexError a LookupError, …)
+            caught = getattr(builtins, n, None)
+            if isinstance(raised, type) and isinstance(caught, type) and issubclass(raised, BaseException) and issubclass(raised, caught):
+                return True
+            if n in ("IOError", "EnvironmentError") and isinstance(raised, type) and issubclass(raised, OSError):
                 return True
         return False
 
